@@ -20,7 +20,7 @@ Definition eff_ok (m : effect) (i : str * list str) : bool :=
 
 (* impl outcome: kind 0 = returned, 1 = an exception left the entry point,
    2 = SystemExit; origin = Some k when the escaping exception is the injected one *)
-Definition impl_out := (N * (option nat * list (str * list str)))%type.
+Definition impl_out := (N * (option nat * (list (str * list str) * list str)))%type.
 
 Definition opt_nat_eqb (a b : option nat) : bool :=
   match a, b with
@@ -29,8 +29,12 @@ Definition opt_nat_eqb (a b : option nat) : bool :=
   | _, _ => false
   end.
 
-Definition out_ok (m : outcome) (i : impl_out) : bool :=
-  let '(kind, (origin, tr)) := i in
+(* ... and the simulated credentials the real run ended with (real, effective,
+   saved uid; real, effective, saved gid; supplementary groups) against the
+   credential semantics applied to the model's trace *)
+Definition out_ok (st : start) (m : outcome) (i : impl_out) : bool :=
+  let '(kind, (origin, (tr, creds))) := i in
+  list_eqb str_eqb (cred_list (final_cred (start_cred st) (out_trace m))) creds &&
   match m with
   | Running t => (kind =? 0) && all2 eff_ok t tr
   | Abort o t => (kind =? 1) && opt_nat_eqb o origin && all2 eff_ok t tr
@@ -38,10 +42,10 @@ Definition out_ok (m : outcome) (i : impl_out) : bool :=
   | Stuck => false
   end.
 
-(* ((whole initialize?, (options, (failure, parent side of fork?))), implementation outcome) *)
-Definition chk_run (c : (bool * (opts * (option (nat * xcls) * bool))) * impl_out) : bool :=
-  let '((whole, (o, (f, parent))), i) := c in
-  let W := World f (if parent then parent_results else child_results) in
+(* ((whole initialize?, (options, (failure, (parent side of fork?, starting credentials)))), implementation outcome) *)
+Definition chk_run (c : (bool * (opts * (option (nat * xcls) * (bool * start)))) * impl_out) : bool :=
+  let '((whole, (o, (f, (parent, st)))), i) := c in
+  let W := World f ((lit "os.fork", if parent then VInt 4242 else VInt 0) :: start_results st) in
   let m := if whole then run prog W (mkcfg o) (lit "initialize") [VStr (lit "pygopherd.conf")]
            else run prog W (mkcfg o) (lit "init_security") [VSym (lit "config")] in
-  out_ok m i.
+  out_ok st m i.
